@@ -13,7 +13,7 @@ package gem
 // Gem::Version#<=> on one position: numbers as integers, strings alphabetically, a string below a number
 //@ func compareSegments
 //@   comparator a ~ b                                     [C01]
-//@   ensures numbers: a.isNumeric && b.isNumeric ==> result == (a.numValue < b.numValue ? -1 : (a.numValue > b.numValue ? 1 : 0))   [C13]
+//@   ensures numbers: a.isNumeric && b.isNumeric ==> result == (a.numValue < b.numValue ? -1 : (a.numValue > b.numValue ? 1 : 0))   [C03 C13]
 //@   ensures string-below-number: !a.isNumeric && b.isNumeric ==> result == -1   [C13]
 //@   ensures number-above-string: a.isNumeric && !b.isNumeric ==> result == 1    [C13]
 //@   ensures strings: !a.isNumeric && !b.isNumeric ==> result == strings.Compare(a.value, b.value)   [C13]
